@@ -15,6 +15,7 @@ import (
 	"strings"
 	"sync"
 	"syscall"
+	"time"
 
 	"github.com/acquirecloud/golibs/files"
 )
@@ -854,7 +855,14 @@ func driveZip(opt *Options) error {
 
 // one random tree, one filter/recursive choice, ZipFolder + UnzipToFolder, and the
 // events  Tree, File*, Dir*, Zip, Out*, End
+type zipSrcFile struct {
+	rel      string
+	n        int
+	selected bool // the filter and the recursive flag select it: the round trip will write it
+}
+
 func driveZipRoundTrip(tw *TraceWriter, rnd *rand.Rand, maxFiles int) {
+	var srcFiles []zipSrcFile
 	root, err := os.MkdirTemp("", "vh-zipfs-drt-")
 	if err != nil {
 		harnessFatal("%v", err)
@@ -958,6 +966,7 @@ func driveZipRoundTrip(tw *TraceWriter, rnd *rand.Rand, maxFiles int) {
 			rnd.Read(content[len(content)-64:])
 		}
 		must(os.WriteFile(filepath.Join(src, filepath.Join(rel...)), content, 0o644))
+		srcFiles = append(srcFiles, zipSrcFile{filepath.Join(rel...), len(content), accept(rel) && (recursive || len(rel) == 1)})
 		h := sha256.Sum256(content)
 		tw.Emit(map[string]any{"op": "File", "path": names.path(rel), "h": hashes.of(string(h[:])),
 			"acc": accept(rel), "size": len(content)})
@@ -992,6 +1001,23 @@ func driveZipRoundTrip(tw *TraceWriter, rnd *rand.Rand, maxFiles int) {
 	}
 	if rnd.Intn(2) == 0 {
 		must(os.MkdirAll(dst, 0o755))
+		if rnd.Intn(2) == 0 {
+			// an earlier extraction is still there: files at the same paths, of the SAME LENGTH, with other content and a
+			// newer modification time - the round trip must replace them
+			later := time.Now().Add(time.Hour)
+			for _, f := range srcFiles {
+				if !f.selected || f.n > 1<<20 || rnd.Intn(3) == 0 {
+					continue // (a left-over at a path the round trip does not write would be the harness's own "extra file")
+				}
+				p := filepath.Join(dst, f.rel)
+				if os.MkdirAll(filepath.Dir(p), 0o755) != nil {
+					continue
+				}
+				if os.WriteFile(p, bytes.Repeat([]byte{'#'}, f.n), 0o644) == nil {
+					os.Chtimes(p, later, later)
+				}
+			}
+		}
 	}
 	var zerr, uerr error
 	if relSrc {
